@@ -99,6 +99,7 @@ func genC04(t *rapid.T) C04Case {
 			c.SynthRoots = append(c.SynthRoots, genHashRef(t, f, v, true, "sroot"))
 		}
 	}
+	hostileRows = []int{63, c.Map.Rows, int(model.Rows(f.N())) + 1}
 	tv := v
 	if mode == "synth" {
 		tv = &model.View{N: c.SynthN, R: model.Rows(c.SynthN), At: map[uint64]Hash{}, NodeAt: map[uint64]*model.Node{}, IsRoot: map[uint64]bool{}}
